@@ -4,6 +4,10 @@ import subprocess, sys
 NEEDS = {
  "C01g": "pages with a committed overwrite entry; one transaction calls CheckpointWAL() and then overwrites such a page again, both writes still queued in one writer batch of more than 12 messages (unstable sort of the batch)",
  "C01h": "completely full bounded file with committed overflow-area pages past MaxSize; any write transaction (even an empty one) is rolled back or closed: the rollback truncates to the data end marker",
+ "C02g": "page P with a committed overwrite entry; a write transaction calls CheckpointWAL early, then overwrites and flushes P, with a dozen more page writes in the same writer batch (unstable sort)",
+ "C02h": "a reader that begins while a write transaction has allocated (and flushed) pages past the committed end of the data area, and that accesses those page ids",
+ "C03g": "a commit where allocating the free-list page makes the meta area grow while the data free list from earlier commits is non-empty (alloc 10, free 4, free 1, alloc 2, overwrite 3)",
+ "C03h": "a page overwritten in a committed transaction (overwrite entry), freed in a later transaction, its id re-allocated and rewritten, then accessed by a later transaction",
  "C04g": "file created with InitMetaArea == 1, then allocations and overwrites",
  "C04h": "full bounded file with free-list/overwrite pages in the overflow area; reopen with FlagUpdMaxSize and MaxSize 0; allocate more pages than the free list holds",
  "C05g": "a flush started by Next (buffer high-water mark reached exactly at an event end) fails cleanly because the bounded file is full; the producer keeps writing after the consumer ACKed",
@@ -14,6 +18,8 @@ NEEDS = {
  "C07h": "a one-shot I/O error inside Commit (page write or data sync); Commit fails; then any later fault-free write transaction is committed",
  "C08g": "a write transaction flushes a page early via Page.Flush or CheckpointWAL (no Tx.Flush), that asynchronous write fails once, the transaction is closed or rolled back without a commit attempt; then a fault-free commit",
  "C08h": "a transaction allocates pages from the end of the file, frees one of those fresh pages (not the last) and its commit fails on a single write or sync (or it is rolled back); a later transaction allocates",
+ "C09g": "re-open with FlagUpdMaxSize and a different MaxSize plus an I/O fault at one write of an open-time maintenance transaction (the optional release transaction, or the max-size header write)",
+ "C09h": "completely filled bounded file; a transaction overwrites committed pages and its Commit fails in the flush (no write-ahead page); a BeginReadonly before the next successful commit",
  "C10g": "full bounded file; an overflow-enabled transaction grows the meta area past the max size and is rolled back or fails; then close and reopen (or continue) before the next commit",
  "C10h": "bounded file whose meta area extends into the overflow area; opened with FlagUpdMaxSize and a larger max size and kept open: the in-memory data end marker is not lifted",
  "C11g": "non-empty free list; a transaction allocates a page served from it, frees that same page and is rolled back (or its commit fails)",
@@ -24,8 +30,14 @@ NEEDS = {
  "C13h": "the consumer ends a read transaction while the producer's flush commit checks or waits for active readers (unsynchronised reader count)",
  "C14g": "shrink on open below the extent (live pages past the new limit are kept), then reopen with FlagUpdMaxSize, Prealloc and a limit larger than the stored one but smaller than the file's extent",
  "C14h": "bounded file reopened with FlagUpdMaxSize and a larger bounded MaxSize without Prealloc; in the same session pages past the old limit are allocated, committed and accessed later",
+ "C15g": "inside one write transaction: Alloc a page, make it dirty (SetBytes or Load+MarkDirty) without flushing, then Free it",
+ "C15h": "Reader.Begin (read transaction open), then Queue.Close, then Read/Next/Available on the held reader",
+ "C16g": "the newest header is damaged but its txid field stays larger than the intact header's; Open falls back; the next commit overwrites the intact active header in place; a torn header write in that commit",
+ "C16h": "damage of the version word (bytes 4..7) of either header that yields a version above 1 while the magic stays intact",
  "C17g": "Queue.Close() with at least one finished but unflushed event in the write buffer (the closing flush commits them but the Flushed callback is skipped), then reopen",
  "C17h": "the last flushed event spans pages and no later event starts in its final page, more than one event ever written; reopen; any flush",
+ "C18g": "an Open rejected by option validation (e.g. FlagUpdMaxSize together with Readonly), then any further Open of the same path",
+ "C18h": "File A open; a second Open correctly rejected with the lock error (its cleanup unlinks the lock file); a third Open of the path while A is still open",
 }
 summary = sys.argv[1]
 only = sys.argv[2:] or sorted(NEEDS)
